@@ -104,8 +104,9 @@ pub fn history(env: &Env, rep: &mut Report, t: &mut Trace, lay: &Layouts, rng: &
             if !ongoing_before && !(o.is_empty_suggestion() && !on) {
                 rep.violation("C06", "idle-backspace-not-inert", format!("backspace when idle returned {:?} / ongoing {}", o, on), ctx(&s, "backspace"));
             }
-            if o.is_empty_suggestion() && on && !ctrl {
-                rep.violation("C06", "session-after-empty-suggestion", "backspace returned the empty suggestion but the session is ongoing".into(), ctx(&s, "backspace"));
+            if o.is_empty_suggestion() && on {
+                let cls = if phon && !s.opts.phonetic_suggestion { "empty-transliteration-keeps-session" } else { "session-after-empty-suggestion" };
+                rep.violation("C06", cls, "backspace returned the empty suggestion but the session is ongoing".into(), ctx(&s, "backspace"));
             }
             if let Obs::Full { cands, sel, .. } = &o { last_len = cands.len(); last_sel = *sel; } else { last_len = 0; last_sel = 0; }
             rep.count(if ctrl { "ctrl-backspace" } else { "backspace" });
